@@ -44,7 +44,7 @@ static inline void f_check(void* p, S const& s, unsigned r)
     if (h != (s.kind != 0)) return;
     if (h) {
         PV a = vf_nd_u32(); PV res = k_f_call(p, a);
-        vf_assert(res == (s.kind == 1 ? s.val + a : s.val - a), "invoking the stored target gives the model's result");
+        vf_assert(res == (s.kind == 1 ? (s.val ^ a) : ~(s.val ^ a)), "invoking the stored target gives the model's result");
         lg_expect(r, k_f_storage_off(), 1, ESZ, TAG);
     } else {
         lg_expect(r, 0, 0, ESZ, TAG);
@@ -58,7 +58,7 @@ static inline void s_check(void* p, S const& s, unsigned r)
     if (h != (s.kind != 0)) return;
     if (h) {
         PV a = vf_nd_u32(); PV res = k_s_call(p, a);
-        vf_assert(res == s.val + a, "small function: invoking the stored target gives the model's result");
+        vf_assert(res == (s.val ^ a), "small function: invoking the stored target gives the model's result");
         lg_expect(r, k_s_storage_off(), 1, ESZ, TAG);
     } else {
         lg_expect(r, 0, 0, ESZ, TAG);
